@@ -37,7 +37,7 @@ def run(ck):
         types = [PROFILES[i % 7]] if fitter == "single" else [rng.choice(PROFILES) for _ in range(rng.randint(1, 4))]
         cases.append({"fitter": fitter, "types": types, "sky": ["none", "flat", "tilted-plane"][i % 3], "loss": losslib.LOSSES[i % 10],
                       "renderer": rng.choice(["pixel", "fourier", "hybrid"]), "suffix": rng.choice(["", "_a", "_1", "_ps"]), "N": rng.choice([6, 8]),
-                      "seed": rng.randint(0, 10**6), "mask": rng.random() < 0.6})
+                      "seed": rng.randint(0, 10**6), "mask": (rng.random() < 0.6) or ("sys" in losslib.LOSSES[i % 10])})
     ck.log("implementation: tracing %d real fitter models" % len(cases))
     import concurrent.futures as cf
     nsh = min(6, vlib.NCPU)
@@ -78,6 +78,14 @@ def run(ck):
             if cls == "Normal":
                 lp = Fraction(float.fromhex(lph))
                 goals.append((ci, "base:" + k, "Goal Rabs (normal_lpdf %s 0 1 - %s) <= 1/1000.\nProof. unfold normal_lpdf. interval. Qed." % (losslib.q(zh), losslib.q(lp))))
+    # independent float64 recomputation of the per-pixel likelihood from the documented formulas (shared with C07), at the fitter's own (data, rms) and the recorded model image
+    from props.C07 import oracle_violations as _lik_oracle
+    for i, b in zip(live, [None] * len(live)):
+        pass
+    lik_bad = _lik_oracle(pcs, pres)
+    for b in lik_bad:
+        oracle_bad.append((b["case"], {"oracle": ["likelihood of the fitted model at an unmasked pixel differs from the documented %s formula with sigma = rms over good pixels: numpyro %.6g vs %.6g"
+                                                   % (b["loss"], b["observed_log_prob"], b["documented_log_prob"])]}))
     ck.rule = ("single/multi fitters x 7 profile types (mixed catalogues of 1-4 sources) x 3 sky types x 10 losses x 3 renderers x suffixes ('', _a, _1, _ps) x masks on 6x6/8x8 dyadic data, "
                "latent values drawn from the prior")
     ok, detail, failing = True, "", []
